@@ -876,6 +876,20 @@ func Store(arr, idx, v *Term) *Term {
 
 func ConstArr(s *Sort, v *Term) *Term { return mk("constarr", s, v) }
 
+// validPattern: solvers reject (z3: warn about) patterns containing logical connectives or ite.
+func validPattern(t *Term) bool {
+	switch t.Op {
+	case "and", "or", "not", "=>", "ite", "forall", "exists", "=", "distinct":
+		return false
+	}
+	for _, a := range t.Args {
+		if !validPattern(a) {
+			return false
+		}
+	}
+	return true
+}
+
 func Forall(bound []*Term, body *Term, pats ...[]*Term) *Term {
 	if body.IsTrue() {
 		return True()
@@ -1100,9 +1114,19 @@ func (p *printer) str(t *Term) string {
 		if len(t.Pats) > 0 {
 			var ps []string
 			for _, pat := range t.Pats {
-				ps = append(ps, ":pattern ("+p.args(pat)+")")
+				ok := true
+				for _, pt := range pat {
+					if !validPattern(pt) {
+						ok = false
+					}
+				}
+				if ok {
+					ps = append(ps, ":pattern ("+p.args(pat)+")")
+				}
 			}
-			body = "(! " + body + " " + strings.Join(ps, " ") + ")"
+			if len(ps) > 0 {
+				body = "(! " + body + " " + strings.Join(ps, " ") + ")"
+			}
 		}
 		return fmt.Sprintf("(%s (%s) %s)", t.Op, strings.Join(bs, " "), body)
 	case "fp.add", "fp.sub", "fp.mul", "fp.div":
